@@ -751,3 +751,108 @@ func newSloppyJSONClaims() *SloppyJSONClaims {
 		CanonicalProfile: SloppyP2Name,
 	}}
 }
+
+// ---- an extension with claims of the richer types generic EAT / CWT claims
+// have: a time (encoded with tag 1), a free-form value, a free-form map ----
+
+const RichP2Name = "http://example.com/verif/rich-types-on-p2"
+
+type RichP2Claims struct {
+	psatoken.P2Claims
+	IssuedAt *time.Time     `cbor:"6,keyasint,omitempty" json:"iat,omitempty"`
+	Submods  map[string]any `cbor:"266,keyasint,omitempty" json:"submods,omitempty"`
+	Free     any            `cbor:"-75800,keyasint,omitempty" json:"free,omitempty"`
+}
+
+func (o RichP2Claims) MarshalCBOR() ([]byte, error) { return encoding.SerializeStructToCBOR(hem, &o) }
+func (o *RichP2Claims) UnmarshalCBOR(data []byte) error {
+	return encoding.PopulateStructFromCBOR(hdm, data, o)
+}
+func (o RichP2Claims) MarshalJSON() ([]byte, error) { return encoding.SerializeStructToJSON(&o) }
+func (o *RichP2Claims) UnmarshalJSON(data []byte) error {
+	return encoding.PopulateStructFromJSON(data, o)
+}
+
+type richP2Profile struct{}
+
+func (richP2Profile) GetName() string { return RichP2Name }
+func (richP2Profile) GetClaims() psatoken.IClaims {
+	p := eat.Profile{}
+	if err := p.Set(RichP2Name); err != nil {
+		panic(err)
+	}
+	return &RichP2Claims{P2Claims: psatoken.P2Claims{
+		Profile:          &p,
+		SwComponents:     &psatoken.SwComponents[*psatoken.SwComponent]{},
+		CanonicalProfile: RichP2Name,
+	}}
+}
+
+// ---- a STAND-ALONE claims type (no embedding, no codec methods of its own:
+// the library's own CBOR / JSON modes encode and decode it by reflection): a
+// profile that carries none of the PSA claims, only eat_profile, a time, a
+// free-form value and a free-form map ----
+
+const FreeFormName = "http://example.com/verif/free-form"
+
+type FreeFormClaims struct {
+	EatProfile *eat.Profile   `cbor:"265,keyasint" json:"eat-profile"`
+	IssuedAt   *time.Time     `cbor:"6,keyasint,omitempty" json:"iat,omitempty"`
+	Submods    map[string]any `cbor:"266,keyasint,omitempty" json:"submods,omitempty"`
+	Free       any            `cbor:"-75800,keyasint,omitempty" json:"free,omitempty"`
+}
+
+func (o *FreeFormClaims) Validate() error { return psatoken.ValidateClaims(o) }
+func (o *FreeFormClaims) GetProfile() (string, error) {
+	if o.EatProfile == nil {
+		return "", psatoken.ErrMissingMandatory
+	}
+	p, err := o.EatProfile.Get()
+	if err != nil {
+		return "", err
+	}
+	if p != FreeFormName {
+		return "", fmt.Errorf("%w: %q", psatoken.ErrWrongProfile, p)
+	}
+	return p, nil
+}
+func (o *FreeFormClaims) GetClientID() (int32, error) { return 0, psatoken.ErrClaimNotInProfile }
+func (o *FreeFormClaims) GetSecurityLifeCycle() (uint16, error) {
+	return 0, psatoken.ErrClaimNotInProfile
+}
+func (o *FreeFormClaims) GetImplID() ([]byte, error)   { return nil, psatoken.ErrClaimNotInProfile }
+func (o *FreeFormClaims) GetBootSeed() ([]byte, error) { return nil, psatoken.ErrClaimNotInProfile }
+func (o *FreeFormClaims) GetCertificationReference() (string, error) {
+	return "", psatoken.ErrClaimNotInProfile
+}
+func (o *FreeFormClaims) GetSoftwareComponents() ([]psatoken.ISwComponent, error) {
+	return nil, psatoken.ErrClaimNotInProfile
+}
+func (o *FreeFormClaims) GetNonce() ([]byte, error)  { return nil, psatoken.ErrClaimNotInProfile }
+func (o *FreeFormClaims) GetInstID() ([]byte, error) { return nil, psatoken.ErrClaimNotInProfile }
+func (o *FreeFormClaims) GetVSI() (string, error)    { return "", psatoken.ErrClaimNotInProfile }
+
+func (o *FreeFormClaims) SetClientID(int32) error           { return psatoken.ErrClaimNotInProfile }
+func (o *FreeFormClaims) SetSecurityLifeCycle(uint16) error { return psatoken.ErrClaimNotInProfile }
+func (o *FreeFormClaims) SetImplID([]byte) error            { return psatoken.ErrClaimNotInProfile }
+func (o *FreeFormClaims) SetBootSeed([]byte) error          { return psatoken.ErrClaimNotInProfile }
+func (o *FreeFormClaims) SetCertificationReference(string) error {
+	return psatoken.ErrClaimNotInProfile
+}
+func (o *FreeFormClaims) SetSoftwareComponents([]psatoken.ISwComponent) error {
+	return psatoken.ErrClaimNotInProfile
+}
+func (o *FreeFormClaims) SetNonce([]byte) error  { return psatoken.ErrClaimNotInProfile }
+func (o *FreeFormClaims) SetInstID([]byte) error { return psatoken.ErrClaimNotInProfile }
+func (o *FreeFormClaims) SetVSI(string) error    { return psatoken.ErrClaimNotInProfile }
+
+type freeFormProfile struct{}
+
+func (freeFormProfile) GetName() string { return FreeFormName }
+func (freeFormProfile) GetClaims() psatoken.IClaims {
+	p := eat.Profile{}
+	if err := p.Set(FreeFormName); err != nil {
+		panic(err)
+	}
+	return &FreeFormClaims{EatProfile: &p}
+}
